@@ -11,7 +11,12 @@ import (
 )
 
 // Violation is one oracle failure with the history that reproduces it.
+// ReplayOnly, when set (by `verifmc replay`), makes every engine execute exactly this history instead of
+// searching.
+var ReplayOnly []string
+
 type Violation struct {
+	UnitArg   string   `json:"unit_arg,omitempty"`
 	Property  string   `json:"property"`
 	Signature string   `json:"signature"` // stable identifier of *what* fails (matched against known findings)
 	Detail    string   `json:"detail"`
@@ -238,8 +243,47 @@ func (d *DFS) confirm(hist []string, sig string) bool {
 	return false
 }
 
+// replay executes one history step by step, evaluating the oracles after every step (and the final phase
+// if the history ends with it).
+func (d *DFS) replay(hist []string) {
+	final := false
+	if n := len(hist); n > 0 && hist[n-1] == "<final phase>" {
+		final, hist = true, hist[:n-1]
+	}
+	w, err := d.New()
+	if err != nil {
+		d.Stats.HarnessErrs = append(d.Stats.HarnessErrs, err.Error())
+		return
+	}
+	d.Stats.Executions++
+	record := func(vs []Violation, h []string) {
+		for _, v := range vs {
+			v.Scenario, v.History = d.Scenario, append([]string{}, h...)
+			d.Stats.Violations = append(d.Stats.Violations, v)
+		}
+	}
+	record(w.Check(nil), nil)
+	for i, a := range hist {
+		if err := w.Do(a); err != nil {
+			d.Stats.HarnessErrs = append(d.Stats.HarnessErrs, fmt.Sprintf("replay step %d %q: %v", i, a, err))
+			break
+		}
+		d.Stats.Transitions++
+		fmt.Printf("  step %d: %s\n    state: %s\n", i+1, a, w.Key())
+		record(w.Check(hist[:i+1]), hist[:i+1])
+	}
+	w.Close()
+	if final && d.Final != nil {
+		record(d.Final(hist), append(append([]string{}, hist...), "<final phase>"))
+	}
+}
+
 // Run explores from the initial state.
 func (d *DFS) Run() {
+	if ReplayOnly != nil {
+		d.replay(ReplayOnly)
+		return
+	}
 	d.seen = map[uint64]int{}
 	d.explore(nil, nil, nil)
 	if d.expired {
